@@ -307,6 +307,20 @@ def quaternion_rules(ctx, rule='R3'):
     cq = m.func(ENC, 'compress_quaternion')
     dq = m.func(ENC, 'decompress_quaternion')
     wl = [l for l in walk_own(cq.node) if isinstance(l, ast.For) and any(isinstance(s, ast.Assign) and norm(s.targets[0]) == 'comp' for s in walk_own(l))]
+    # `for i, c in enumerate(quat_n[:4])` is the index loop `for i in range(4)` with c = quat_n[i]: analyse it in that form
+    if len(wl) == 1 and isinstance(wl[0].iter, ast.Call) and norm(wl[0].iter.func) == 'enumerate' and len(wl[0].iter.args) == 1 and \
+            norm(wl[0].iter.args[0]) in ('quat_n[:4]', 'quat_n') and isinstance(wl[0].target, ast.Tuple) and len(wl[0].target.elts) == 2 and \
+            all(isinstance(e, ast.Name) for e in wl[0].target.elts):
+        import copy as _copy
+        from ..symexec import subst as _subst
+        iv_, cv_ = wl[0].target.elts[0].id, wl[0].target.elts[1].id
+        if not any(isinstance(x, ast.Name) and x.id == cv_ and isinstance(x.ctx, ast.Store) for st_ in wl[0].body for x in ast.walk(st_)):
+            lp_ = _copy.deepcopy(wl[0])
+            lp_.target = ast.Name(id=iv_, ctx=ast.Store())
+            lp_.iter = ast.parse('range(4)', mode='eval').body
+            lp_.body = [_subst(st_, {cv_: ast.parse('quat_n[%s]' % iv_, mode='eval').body}) for st_ in lp_.body]
+            ast.fix_missing_locations(lp_)
+            wl = [lp_]
     rl = [l for l in walk_own(dq.node) if isinstance(l, ast.For)]
     ctx.need(len(wl) == 1 and len(rl) == 1, 'quaternion codec loops not found')
     ctx.inst(rule, cq, 'writer-order-ascending', fold_in(cq, wl[0].iter) == (0, 1, 2, 3), 'writer visits components 0..3 ascending; iter %s' % norm(wl[0].iter))
